@@ -173,8 +173,15 @@ def finish(run, args):
     # cannot speak about it, so nothing is proved or refuted by the verifier; the property's native replay battery is run
     # on the real code as a labelled stand-in, and only an input that actually fails there is reported
     if run.unsupported and not violations:
-        h = getattr(mod, "REPLAY", {}).get("*")
-        if h:
+        # the harness paired with the function the fault names (longest key of the replay / search maps occurring in the
+        # fault text), else the property's default battery
+        hs = []
+        for f in run.unsupported:
+            for table in (getattr(mod, "REPLAY", {}), getattr(mod, "SEARCH", {})):
+                h = pick(table, f)
+                if h and h not in hs:
+                    hs.append(h)
+        for h in hs:
             res = native(h, dict(seed=run.seed), timeout=600)
             if res.get("violates") and not res.get("timed_out"):
                 name = "outside-verified-subset::" + safe(run.unsupported[0])[:100]
@@ -183,6 +190,7 @@ def finish(run, args):
                                            "battery fails on this tree" % "; ".join(run.unsupported)[:400]))
                 path = write_replay(pid, name, payload)
                 violations.append((name, path, True))
+                break
 
     # bounded stand-ins (never counted as discharged obligations): native checks of assumed contracts
     bounded_runs = []
